@@ -21,6 +21,7 @@ EXPLANATION = (
     "line's textual column.  The emitted getter/setter/factory text and the "
     "body transplant are runtime strings and are not decided."
     " R17.8: the pending setter call is closed at the END of the statement's logical line."
+    ' R17.9: the global factory is inserted below the last nested scope of the class.'
 )
 ASSUMPTIONS = ["R17.1 and R17.4 share their rule bodies with C04 and C03"]
 
